@@ -236,7 +236,7 @@ def DEC(*names):
 
 PROPS = {
     "C01": {
-        "bridge": RENDER + TABLES + NODES + DEC("Cast", "Match", "Resolve", "Default", "Hooks", "Function", "Util"),
+        "bridge": RENDER + TABLES + NODES + DEC("Cast", "Match", "Resolve", "Default", "Hooks", "Function", "Util", "Struct"),
         "extra_modules": ["Convergen.Props.C04", "Convergen.Props.C16"],
         "sweeps": [sweep_front("mixed", 160, 6000, cats=["body", "slice", "hook", "header", "errflow"], compile=True),
                    sweep_front("matching", 100, 3000, cats=["body", "slice"], compile=True),
@@ -259,7 +259,7 @@ PROPS = {
         "assumptions": ["Go's typing of the emitted fragment is judged by the compiler, not modelled (GoTyping is limited to castNode_sound and the slice decision)"],
     },
     "C02": {
-        "bridge": RENDER + NODES + DEC("Cast", "Match", "Resolve", "Default"),
+        "bridge": RENDER + NODES + DEC("Cast", "Match", "Resolve", "Default", "Struct"),
         "extra_modules": ["Convergen.Props.BuilderInv", "Convergen.Props.Cover", "Convergen.Props.Rooted"],
         "sweeps": [sweep_runtime(60, 1500), sweep_front("nesting", 120, 3000, cats=["body", "slice"]),
                    sweep_front("scoping", 80, 2000, cats=["body", "slice"]),
@@ -327,7 +327,7 @@ PROPS = {
         "assumptions": ["go/types relations are oracle tables (WF of the facts is assumed, not proved)"],
     },
     "C05": {
-        "bridge": RENDER + NODES + DEC("Match", "Default"),
+        "bridge": RENDER + NODES + DEC("Match", "Default", "Struct"),
         "extra_modules": ["Convergen.Props.BuilderInv", "Convergen.Props.Cover"],
         "sweeps": [sweep_front("nesting", 120, 4000, cats=["body", "slice", "stderr"]),
                    sweep_front("plain", 80, 3000, cats=["body", "slice", "stderr"]),
@@ -343,7 +343,7 @@ PROPS = {
         "assumptions": ["go/types relations are oracle tables"],
     },
     "C06": {
-        "bridge": RENDER + TABLES + NODES + DEC("Match", "Resolve", "Default", "Option", "Function", "Notation", "Conv"),
+        "bridge": RENDER + TABLES + NODES + DEC("Match", "Resolve", "Default", "Option", "Function", "Notation", "Conv", "Struct"),
         "sweeps": [sweep_front("notations", 160, 4000, cats=["body", "slice", "stderr"]),
                    sweep_front("nesting", 80, 2000, cats=["body", "slice", "stderr"]),
                    sweep_front("casefold", 60, 2000, cats=["body", "slice", "stderr"]),
